@@ -3,6 +3,9 @@
   lemmas of Lemmas/C03Inv.lean), hence by every run of the concrete layer.
 -/
 import MitmVerif.Lemmas.C03Inv
+import MitmVerif.Lemmas.C03InvReq
+import MitmVerif.Lemmas.C03InvErr
+import MitmVerif.Lemmas.C03InvResp
 namespace MitmVerif.C03
 
 -- ------------------------------------------------------------------------------------------------
